@@ -50,7 +50,7 @@ def main():
             "guard": "verif-hooks",
             "enable": "cargo feature `verif-hooks` of truc_runtime (off by default); the generated-driver crates enable it through their own feature `hooks` = [\"truc_runtime/verif-hooks\"]; no hook is needed in the `truc` crate",
             "baseline_off_cmd": "cd /repo && cargo nextest run --workspace --no-fail-fast --offline || cargo test --workspace --no-fail-fast --offline",
-            "source_commits": ["36238f9"],
+            "source_commits": ["36238f9", "21ce029", "8d4814d", "9e91616", "46d8cee"],
             "add_only": True,
         },
         "engines": [
